@@ -52,6 +52,9 @@ def _emit(p, res, rname, prefixes=None):
         if r != rname:
             continue
         f = it['func']
+        if it.get('undecided'):
+            res.undecided('%s: %s' % (q[6:], construct), 'not decided (%s): %s' % (it['undecided'], it['message']))
+            continue
         res.bad(F(rname, f, it['node'], construct, it['message'], details=['path : ' + it['trace']] if it['trace'] else []))
     for (q, construct) in sorted(an.report.checked.get(rname, ())):
         bad = (rname, q, construct) in an.report.items
@@ -80,7 +83,7 @@ def scn_progress(p, res):
         if r != 'SCN-PROGRESS':
             continue
         if it.get('undecided'):
-            res.undecided('%s: %s' % (q[6:], construct), 'the displacement of the cursor on a path to the back edge is not known to the cursor domain (callback or computed move): progress is not decided')
+            res.undecided('%s: %s' % (q[6:], construct), 'progress on a path to the back edge is not decided: the displacement is not known to the cursor domain (callback, method handed over as a value, computed move) or a callee reports success without having moved (possibly an infeasible combination of its summary)')
             continue
         res.bad(F('SCN-PROGRESS', it['func'], it['node'], construct, it['message'], details=['path : ' + it['trace']]))
     n = 0
